@@ -64,6 +64,8 @@ def forms(fl):
         ('fixed-{set}', {'fixed_species': {'S', 'P'}}, [1, 3, 4]),
         ('fixed-[repeated names]', {'fixed_species': ['S', 'P', 'S']}, [1, 3, 4]),
         ('fixed-(tuple)', {'fixed_species': ('S',)}, [1, 3]),
+        ('fixed-[] (empty = not given)', {'fixed_species': []}, [0, 1, 2, 3, 4]),
+        ('fixed-() with floating', {'fixed_species': (), 'floating_species': fl}, [1, 3, 4]),
     ]
 
 
@@ -154,6 +156,20 @@ def evaluate(assign, drift_idx, T, M, cls, layout='Li'):
                 viols.append(('injected-rigid-drift-not-removed', f'{fname}: max dev {np.max(np.abs(np.array(c1.displacements) - d0))}'))
         except Exception as e:  # noqa: BLE001
             viols.append((f'second-correction-raise-{type(e).__name__}', f'{fname}: {e}'))
+    # a drift array handed out earlier belongs to the caller: editing it must not change later answers
+    try:
+        tq = concretise.make_trajectory(wrap(xd), SYMS, M, time_step=2e-15, species_cls=cls)
+        d_first = tq.drift(fixed_species='S')
+        keep = np.array(d_first)
+        d_first *= 0.0
+        d_again = np.array(tq.drift(fixed_species='S'))
+        if not np.allclose(d_again, keep, atol=1e-12):
+            viols.append(('drift-result-shared-with-earlier-callers', ''))
+        tq.extend(concretise.make_trajectory(wrap(xd)[::-1].copy(), SYMS, M, time_step=2e-15, species_cls=cls))
+        if np.asarray(tq.drift(fixed_species='S')).shape[0] != 2 * T:
+            viols.append(('drift-stale-after-extend', ''))
+    except Exception as e:  # noqa: BLE001
+        viols.append((f'drift-history-raise-{type(e).__name__}', str(e)))
     # floating X == fixed (all other symbols)
     try:
         t0 = concretise.make_trajectory(wrap(xd), SYMS, M, time_step=2e-15, species_cls=cls)
